@@ -207,8 +207,8 @@ def _run_history(kind, h, hold=1.5):
     _shim = types.SimpleNamespace(**{k: getattr(threading, k) for k in dir(threading) if not k.startswith("__")})
     _shim.Thread = _FastJoinThread
     _mod = S if kind == "tftp" else H
-    _old_threading = _mod.threading
-    _mod.threading = _shim
+    _hist_patch = _Patch()
+    sched.patch_module_use(_mod, threading, _shim, _hist_patch.set)
     if kind == "tftp":
         handler = _TftpHandler()
         srv = S.TftpServer([handler], "::1", port, default_timeout=0.3, max_retries=0)
@@ -283,10 +283,9 @@ def _run_history(kind, h, hold=1.5):
             elif o == START_THREAD_FAIL:
                 # start() while the OS refuses a new thread: socket(), bind() succeed, Thread.start() raises once
                 mod = S if kind == "tftp" else H
-                real_threading = mod.threading
                 armed = [True]
 
-                class _FailingThread(threading.Thread):
+                class _FailingThread(_FastJoinThread):
                     def start(self):
                         if armed[0]:
                             armed[0] = False
@@ -304,13 +303,16 @@ def _run_history(kind, h, hold=1.5):
                         done.append(1)
                     except BaseException:      # noqa
                         done.append(2)
-                mod.threading = shim
+                fail_patch = _Patch()
+                _hist_patch.undo()
+                sched.patch_module_use(mod, threading, shim, fail_patch.set)
                 try:
                     th = threading.Thread(target=call_start, daemon=True)
                     th.start()
                     th.join(5.0)
                 finally:
-                    mod.threading = real_threading
+                    fail_patch.undo()
+                    sched.patch_module_use(_mod, threading, _shim, _hist_patch.set)
                 if th.is_alive():
                     hang = 1
                     baseline.add(th)
@@ -409,7 +411,7 @@ def _run_history(kind, h, hold=1.5):
             if hang:
                 break
     finally:
-        _mod.threading = _old_threading
+        _hist_patch.undo()
         if handler is not None:
             handler.release.set()
         try:
@@ -567,16 +569,17 @@ class ConcScenario:
         self.servers = []
         self.raised = []
         if kind == "tftp":
-            self.patch.set(S, "threading", sched.shim())
+            sched.patch_module_use(S, threading, sched.shim(), self.patch.set)
             sock_shim = types.SimpleNamespace(**{k: getattr(real_socket, k) for k in dir(real_socket)
                                                  if not k.startswith("__")})
             sock_shim.socket = lambda **k: _FakeListenSock(self.socks)
-            self.patch.set(S, "socket", sock_shim)
+            sock_shim.socket = _mk_fake = (lambda *a, **k: _FakeListenSock(self.socks))
+            sched.patch_module_use(S, real_socket, sock_shim, self.patch.set)
             self.srv = S.TftpServer([_TftpHandler()], "::1", 0)
         else:
             sh = sched.shim()
-            self.patch.set(H, "threading", sh)
-            self.patch.set(socketserver, "threading", sh)
+            sched.patch_module_use(H, threading, sh, self.patch.set)
+            sched.patch_module_use(socketserver, threading, sh, self.patch.set)
             self.patch.set(socketserver, "_ServerSelector", _FakeSelector)
             servers = self.servers
             base_name, base = _server_class(H)
@@ -754,6 +757,69 @@ def ack(n):
     return b"\x00\x04" + struct.pack("!H", n & 0xFFFF)
 
 
+def _xfer_private(cls, c, x, script, clock, log, nsock, options, handler, uncaught):
+    shim = types.SimpleNamespace(**{k: getattr(real_socket, k) for k in dir(real_socket) if not k.startswith("__")})
+
+    def mk(**k):
+        if not c["sock_ok"]:
+            raise OSError(24, "Too many open files")
+        nsock[0] += 1
+        return _Sock(list(script), clock, log, c["send_err_raises"], c.get("fault"))
+    shim.socket = mk
+    old_hook = threading.excepthook
+    threading.excepthook = lambda args: uncaught.append(args.exc_type.__name__)
+    old = (S.socket, S.time)
+    S.socket = shim
+    S.time = types.SimpleNamespace(monotonic=lambda: clock[0])
+    hdl = fake_net._Log(log)
+    S.logger.addHandler(hdl)
+    old_level, old_prop = S.logger.level, S.logger.propagate
+    S.logger.setLevel(logging.INFO)
+    S.logger.propagate = False
+    logging.disable(logging.NOTSET)
+    ended = 1
+    before = set(threading.enumerate())
+    try:
+        r = cls("f", P.TransferMode.OCTET, options, fake_net.CLI, fake_net.SRV, handler, None,
+                               2, 30, 1, 65464, None if x == "overflow" else 0)
+        th = getattr(r, "_thread", None)
+        ths = [th] if th is not None else [t_ for t_ in threading.enumerate() if t_ not in before]
+        for th in ths:
+            th.join(120 if x == "overflow" else 20)
+            if th.is_alive():
+                ended = 0
+    finally:
+        S.socket, S.time = old
+        S.logger.removeHandler(hdl)
+        S.logger.setLevel(old_level)
+        S.logger.propagate = old_prop
+        logging.disable(logging.CRITICAL)
+        threading.excepthook = old_hook
+    return ended
+
+
+def _xfer_public(c, x, script, log, nsock, options, handler, uncaught):
+    """the same transfer through the PUBLIC path (a real TftpServer whose request socket is a fake delivering one read
+    request; harness/fake_net.py): used when the private transfer class is not there under its name with the
+    constructor this harness knows (refactorings)"""
+    def factory(script_, clock_, log_, proc_=0):
+        if not c["sock_ok"]:
+            raise OSError(24, "Too many open files")
+        nsock[0] += 1
+        return _Sock(script_, clock_, log_, c["send_err_raises"], c.get("fault"))
+    old_hook = threading.excepthook
+    threading.excepthook = lambda args: uncaught.append(args.exc_type.__name__)
+    logging.disable(logging.NOTSET)
+    try:
+        fake_net.run_transfer(script, handler, options, default_timeout=2, max_timeout=30, max_retries=1,
+                              max_block_size=65464, wrap=None if x == "overflow" else 0, shared_log=log,
+                              sock_class=factory, public=True)
+    finally:
+        logging.disable(logging.CRITICAL)
+        threading.excepthook = old_hook
+    return 0 if ("hang",) in log else 1
+
+
 def run_xfer(c):
     """one real _TftpReadRequest; returns [sockets closed, files closed, thread ended, logger.exception calls,
     thread died with an exception]"""
@@ -815,44 +881,12 @@ def run_xfer(c):
     clock = [0.0]
     log = []
     nsock = [0]
-    shim = types.SimpleNamespace(**{k: getattr(real_socket, k) for k in dir(real_socket) if not k.startswith("__")})
-
-    def mk(**k):
-        if not c["sock_ok"]:
-            raise OSError(24, "Too many open files")
-        nsock[0] += 1
-        return _Sock(list(script), clock, log, c["send_err_raises"], c.get("fault"))
-    shim.socket = mk
     uncaught = []
-    old_hook = threading.excepthook
-    threading.excepthook = lambda args: uncaught.append(args.exc_type.__name__)
-    old = (S.socket, S.time)
-    S.socket = shim
-    S.time = types.SimpleNamespace(monotonic=lambda: clock[0])
-    hdl = fake_net._Log(log)
-    S.logger.addHandler(hdl)
-    old_level, old_prop = S.logger.level, S.logger.propagate
-    S.logger.setLevel(logging.INFO)
-    S.logger.propagate = False
-    logging.disable(logging.NOTSET)
-    ended = 1
-    before = set(threading.enumerate())
-    try:
-        r = _request_class(S)("f", P.TransferMode.OCTET, options, fake_net.CLI, fake_net.SRV, handler, None,
-                               2, 30, 1, 65464, None if x == "overflow" else 0)
-        th = getattr(r, "_thread", None)
-        ths = [th] if th is not None else [t_ for t_ in threading.enumerate() if t_ not in before]
-        for th in ths:
-            th.join(120 if x == "overflow" else 20)
-            if th.is_alive():
-                ended = 0
-    finally:
-        S.socket, S.time = old
-        S.logger.removeHandler(hdl)
-        S.logger.setLevel(old_level)
-        S.logger.propagate = old_prop
-        logging.disable(logging.CRITICAL)
-        threading.excepthook = old_hook
+    cls = fake_net.private_class()
+    if cls is not None:
+        ended = _xfer_private(cls, c, x, script, clock, log, nsock, options, handler, uncaught)
+    else:
+        ended = _xfer_public(c, x, script, log, nsock, options, handler, uncaught)
     for pth in tmpfiles:
         try:
             os.remove(pth)
